@@ -6,6 +6,11 @@ HERE = os.path.dirname(os.path.abspath(__file__))
 
 # id -> (level, technique, text, note)   (only implemented checks are listed; the rest go to not_applicable)
 CHECKS = {
+    "C11": ("model_checking",
+            "exhaustive enumeration of storage twins: every catalogue value x object-stream position x trailing white-space as a full product with bounded deviations of filter, /First padding, neighbour kinds and update placement; real files resolved through the real reader",
+            "Every value kind is placed both as a direct object and inside an object stream (only/first/middle/last, each trailing white-space form incl. none at the end of the stream data, 5 object-stream filters, every neighbour kind) and both references must resolve to the producer's value; stream data must not depend on whether /Length is direct, an indirect direct-object integer (before/after) or an integer inside an object stream.",
+            "Trusted: the assembler's object-stream writer. Bound: <=1 (quick) / <=2 (thorough) simultaneous deviations of filter/padding/neighbours.",
+            "§5 C11"),
     "C02": ("model_checking",
             "exhaustive enumeration of update histories (all sequences of <=3 xref sections over <=3 object numbers, every entry state and section format) generated as real files, loaded by the real reader and compared with a map-based reference model of 'newest mention wins'",
             "The history space (sections x format x per-object {absent, direct, compressed, free}) is a full product; every history, including every prefix length, is materialised by the independent assembler and every object number below /Size is resolved through the library and compared with the reference model; free/undefined numbers must give a free/missing error; trailer root/size/ID must be the newest section's.",
